@@ -227,7 +227,11 @@ def gen_text(rng, **kw):
 ALPHABET_TOKENS = ["0", "1", "2", "7", "12", "3.5", ".", "1.2.3", "x", "y", "z", "ab", "sgn", "sgn(", "sg", "sgnx", "+", "-", "–", "*", "/",
                    "^", "!", "(", ")", "[", "]", "=", " ", "  ", "\t", "\n", "\r"]
 FOREIGN = ["#", "$", "%", "&", "@", "_", "{", "}", "|", "~", ",", ";", ":", "'", '"', "<", ">", "?", "\\", "é", "π", "٣", "２", "x́",
-           "−", " ", " ", "\x00", "\x0b", "\x0c", "e5", "1e5", "²", "×", "÷", "√"]
+           "−", " ", " ", "\x00", "\x0b", "\x0c", "e5", "1e5", "²", "×", "÷", "√",
+           # characters that case-fold or normalise to ASCII letters / digits (Kelvin sign, long s, dotless and
+           # dotted i, fullwidth letters, mathematical alphanumerics), also directly after a letter or digit
+           "\u212a", "\u017f", "\u0131", "\u0130", "x\u212a", "s\u017f", "4\u0131", "a\u0130b", "\uff58", "\uff11", "x\uff58", "1\uff11", "\U0001d465", "y\U0001d7d0",
+           "\u00b5", "x\u00b5", "\u03bc", "\u2160", "x\u2160", "\u00aa", "a\u00aa", "\u00ba", "\u2074", "x\u2074"]
 
 
 def soup(rng, n=None, foreign=0.03):
